@@ -191,6 +191,25 @@ def check_C10(tier: str, v: Verdict):
         outb, resb, exc = run_evaluate(pb, rb, cfg)
         attach_b(rec, "same", outb, resb, exc, {"transform": "crop-shared-margins"})
         recs.append(rec)
+    # instance counts at the dtype boundary of the instance maps (255 / 256 / 257 components): which
+    # component is numbered last depends on the scan order, which flips and permutations change
+    for k in ((255, 256, 257) if tier == "thorough" else (256,)):
+        shape = (32, 34)
+        ref = np.zeros(shape, dtype=np.int64)
+        pos = [(i, j) for i in range(0, 32, 2) for j in range(0, 34, 2)][:k]
+        for p_ in pos:
+            ref[p_] = 1
+        pred = ref.copy()
+        pred[pos[0]] = 0
+        pred[pos[1][0], pos[1][1] + 1] = 1                     # the second instance over-segmented by one voxel
+        cfg = default_cfg(input="SEM", gm=["DSC", "IOU"], im=["DSC", "IOU", "RVD"])
+        base = rec_evaluate(pred, ref, cfg, meta={"gen": f"components-{k}"})
+        for name, f in (("flip-all", lambda a: np.flip(a)), ("transpose", lambda a: np.ascontiguousarray(a.T)), ("fortran", np.asfortranarray)):
+            rec = dict(base)
+            rec["meta"] = dict(base["meta"])
+            outb, resb, exc = run_evaluate(f(pred.astype(np.uint8)), f(ref.astype(np.uint8)), cfg)
+            attach_b(rec, "same", outb, resb, exc, {"transform": name})
+            recs.append(rec)
     _count_cov(v, recs, lambda r: _eval_key(r) + (r["meta"]["transform"],), lambda r: any(r["pred"]) and any(r["ref"]))
     v.cov["rule"] = ("pairs (A, B = A zero-padded at random offsets / cropped to the shared bounding box / mirrored along an axis / with "
                      "permuted axes (views and contiguous copies) / in Fortran order / with negative strides / as a strided view) x input "
